@@ -118,7 +118,7 @@ func init() {
 		ID:    "C02",
 		Level: "exploration",
 		Rule: "cases are @if constructs with 0..3 @elseif and with/without @else over every truthiness vector, with every value of the truthiness table (literal and data) at one position at a time, an erroring expression at every position, the same constructs nested in @if/@each/@for to depth 3, ternaries, @breakIf and @continueIf over the whole table, plus seeded random nestings; " +
-			"every condition carries a tracer probe (custom function tr) so the render yields an evaluation log; output and log are compared with an independent interpreter. also @else bodies glued to the keyword, the construct inside slot bodies/insert blocks/component files/layouts, faults deep inside a condition (later element, later argument, object value, taken arm), string comparisons with quote characters in both literal styles, Go-native values as conditions; conditions on shared array cells, on variables stepped by postfix operators, on keys differing only in case, NaN conditions; round 8: source-visible faults after the chosen branch and in unchosen ternary arms; round 9: conditions on component arguments; scale: chains and nests to 300; concurrent replay; rounds 10-11: reserves in layout loops, ternary in every position; round 13: 49 conditions computed by built-ins; round 14: literals closing braces next to each other as conditions; round 15: prefix operators on chains as conditions; distinct_nontrivial = distinct sources whose construct has at least one condition",
+			"every condition carries a tracer probe (custom function tr) so the render yields an evaluation log; output and log are compared with an independent interpreter. also @else bodies glued to the keyword, the construct inside slot bodies/insert blocks/component files/layouts, faults deep inside a condition (later element, later argument, object value, taken arm), string comparisons with quote characters in both literal styles, Go-native values as conditions; conditions on shared array cells, on variables stepped by postfix operators, on keys differing only in case, NaN conditions; round 8: source-visible faults after the chosen branch and in unchosen ternary arms; round 9: conditions on component arguments; scale: chains and nests to 300; concurrent replay; rounds 10-11: reserves in layout loops, ternary in every position; round 13: 49 conditions computed by built-ins; round 14: literals closing braces next to each other as conditions; round 15: prefix operators on chains as conditions; round 17: conditions computed by arithmetic over every pair of arithmetic operators; distinct_nontrivial = distinct sources whose construct has at least one condition",
 		Assumptions: []string{
 			"nil- and object-valued conditions cannot carry a tracer and are judged by output only",
 			"text right after @else never starts with 'if' (that spells @elseif)",
